@@ -11,6 +11,7 @@ RULES = {
     "H1": "pairing: record_order_added exactly once on every path of add_order; record_order_removed exactly once on a path iff an order is taken and not re-inserted (cancel / price move), never otherwise (amend, not-found, error); record_execution exactly once per maker visit of match_order with the quantity remaining was lowered by (= the transaction quantity) and the level's price",
     "H2": "what the counters do: record_order_added/removed/execution only fetch_add on their own fields with (1), (1), (1, quantity, quantity*price); no load/store split of the four counters the property names; the getters load the field they name",
     "H3": "(thorough) no target of the workspace writes the pub atomic fields of PriceLevelStatistics outside statistics.rs",
+    "H4": "one event, one record, also with many threads: an order is handed to exactly one caller (OrderQueue::pop / ::remove return the payload of their own DashMap::remove; nobody else touches the map or the tickets), so a removal or an execution cannot be recorded by two threads",
     "H0": "coverage",
 }
 
@@ -98,6 +99,12 @@ def run(ctx, chk):
         chk.require(okp, "H1", key + ":price", ev[0][5], "record_execution price %s is not the level's price (the price the transaction of the same fill is reported at)" % short(p), describe_path(r))
     chk.require(nvis >= 10, "H0", fn, b.span, "%d maker visits analysed" % nvis)
 
+    # ---------------- H4 single hand-out
+    from ..queue import QueueAnalysis
+    Q = QueueAnalysis(ctx)
+    Q.rule_pop(chk, "H4", "H4", "H4")
+    Q.rule_remove_find(chk, "H4")
+    Q.who_may(chk, "H4")
     # ---------------- H2 recorder bodies
     stats_adt = db.adt("price_level::statistics::PriceLevelStatistics")
     sself = ("obj", ("param", 1))
